@@ -6,6 +6,7 @@ mod crash;
 mod driver;
 mod exec;
 mod json;
+mod mem;
 mod model;
 mod oracle;
 mod rng;
@@ -23,9 +24,12 @@ fn usage() -> i32 {
 }
 
 fn main() {
-    exec::install_panic_hook();
-    world::install_hooks();
     let args: Vec<String> = std::env::args().skip(1).collect();
+    exec::install_panic_hook();
+    // free-running threads (Miri race detection) must not go through the scheduler hooks
+    if args.first().map(String::as_str) != Some("mem-threads") {
+        world::install_hooks();
+    }
     let code = match args.first().map(String::as_str) {
         Some("check") => {
             let prop = args.get(1).cloned().unwrap_or_default();
@@ -51,6 +55,8 @@ fn main() {
         Some("trace") => trace::check(args.get(1).map(String::as_str).unwrap_or("quick")),
         Some("dev") => dev(&args[1..]),
         Some("digest") => digest(&args[1..]),
+        Some("mem") => mem::run(&args[1..]),
+        Some("mem-threads") => mem::threads(&args[1..]),
         Some("min") => {
             let s = std::fs::read_to_string(&args[1]).unwrap();
             let j = json::J::parse(&s).unwrap();
